@@ -10,8 +10,10 @@ import (
 	"io"
 	"net/http"
 	"os"
+	"os/signal"
 	"path/filepath"
 	"strings"
+	"syscall"
 	"sync"
 	"sync/atomic"
 	"testing"
@@ -404,9 +406,34 @@ func c04Pattern(model string) string {
 
 func verifC04Run(args []vsx) vsx {
 	sc := c04ParseScenario(args)
-	if len(sc.batches) == 0 || len(sc.batches) > len(c04Instances) || sc.exitAfter >= 0 {
+	if len(sc.batches) == 0 || len(sc.batches) > len(c04Instances) {
 		return vL(vS("bad-case")) // outside what this kind drives (no suites would mean the embedded ones)
 	}
+	// A client that ends early is driven here only in the one shape that is deterministic with real OS
+	// processes and independent of the order of the server instances (so that it can run WITHOUT
+	// Verbose, i.e. in map order): it exits with status 1 right after answering the last request of a
+	// batch, all batches have the same size, every reply passes, nothing is marked.  The servers then
+	// take 500 ms to stop, so the runner has seen the exit before it would start the next server: the
+	// remaining batches are never started and their cases never get an outcome.
+	boundary := false
+	if sc.exitAfter >= 0 {
+		n := len(sc.batches[0])
+		ok := sc.exitErr && len(sc.kf) == 0 && len(sc.kfl) == 0 && n > 0 && sc.exitAfter > 0 &&
+			sc.exitAfter%n == 0 && sc.exitAfter < n*len(sc.batches)
+		for i, names := range sc.batches {
+			ok = ok && len(names) == n && sc.serverOK[i]
+			for _, nm := range names {
+				ok = ok && sc.replies[nm] == 0
+			}
+		}
+		if !ok {
+			return vL(vS("bad-case"))
+		}
+		boundary = true
+	}
+	// without an early exit the order of the batches does not show in the result: half of the runs
+	// (by the number of cases) go without Verbose, as most unattended runs do
+	verbose := !boundary && len(sc.replies)%2 == 0
 	for _, names := range sc.batches {
 		if len(names) == 0 {
 			return vL(vS("bad-case")) // run() skips empty batches
@@ -462,6 +489,9 @@ func verifC04Run(args []vsx) vsx {
 		exitCode = 1
 	}
 	fmt.Fprintf(&script, "exit %d\n", exitCode)
+	if boundary {
+		fmt.Fprintf(&script, "exitafter %d\n", sc.exitAfter)
+	}
 	scriptFile := filepath.Join(dir, "script")
 	if err := os.WriteFile(scriptFile, []byte(script.String()), 0o600); err != nil {
 		panic(err)
@@ -501,7 +531,7 @@ func verifC04Run(args []vsx) vsx {
 		TestFiles:            files,
 		KnownFailingPatterns: patterns(sc.kf),
 		KnownFlakyPatterns:   patterns(sc.kfl),
-		Verbose:              true, // server instances in sorted order
+		Verbose:              verbose, // true: server instances in sorted order
 		ClientCommand:        child("client"),
 		ServerCommand:        child("server"),
 		MaxServers:           1,
@@ -513,6 +543,9 @@ func verifC04Run(args []vsx) vsx {
 		return vL(vS("bad-case"), vS("run-returned-error"), vS(err.Error()))
 	}
 	msgs := logPr.take()
+	if os.Getenv("VERIF_DEBUG") != "" {
+		fmt.Fprintf(os.Stderr, "c04.run log: %q\nerr: %q\n", msgs, errPr.take())
+	}
 	for i, m := range msgs {
 		// project the names in FAILED / INFO lines onto model names
 		for _, pfx := range []string{"FAILED: ", "INFO: "} {
@@ -534,6 +567,14 @@ func verifC04Run(args []vsx) vsx {
 	rep := c04ParseReport(ok, msgs)
 	if len(rep.l) != 8 {
 		return rep
+	}
+	if boundary {
+		// "Total cases" is the number of outcomes recorded; whether the batch after the client's exit was
+		// still entered (its cases then get a could-not-run outcome) or not (no outcome at all) shows in
+		// that number only.  What the property speaks of is that the printed counts account for every
+		// selected case exactly once: the sum of the four counts takes its place (the model's total is
+		// the number of selected cases).
+		rep.l[1] = vI(rep.l[2].i + rep.l[3].i + rep.l[4].i + rep.l[5].i)
 	}
 	// Run does not expose report()'s own return value: the first field of the report part
 	// carries the verdict on both sides.
@@ -557,7 +598,7 @@ func TestVerifC04Child(t *testing.T) {
 	}
 	replies := map[string]int64{}
 	servers := map[[2]int]bool{}
-	exitCode := 0
+	exitCode, exitAfter := 0, -1
 	for _, line := range strings.Split(string(data), "\n") {
 		var name string
 		var a, b, c int
@@ -565,6 +606,8 @@ func TestVerifC04Child(t *testing.T) {
 			replies[name] = int64(a)
 		} else if n, _ := fmt.Sscanf(line, "server %d %d %d", &a, &b, &c); n == 3 {
 			servers[[2]int{a, b}] = c != 0
+		} else if n, _ := fmt.Sscanf(line, "exitafter %d", &a); n == 1 {
+			exitAfter = a
 		} else if n, _ := fmt.Sscanf(line, "exit %d", &a); n == 1 {
 			exitCode = a
 		}
@@ -584,9 +627,21 @@ func TestVerifC04Child(t *testing.T) {
 		if err := internal.WriteDelimitedMessage(os.Stdout, &conformancev1.ServerCompatResponse{Host: "127.0.0.1", Port: 9}); err != nil {
 			os.Exit(3)
 		}
+		if exitAfter >= 0 {
+			// slow to stop (see verifC04Run)
+			term := make(chan os.Signal, 1)
+			signal.Notify(term, syscall.SIGTERM)
+			select {
+			case <-term:
+				time.Sleep(500 * time.Millisecond)
+			case <-time.After(time.Minute):
+			}
+			os.Exit(0)
+		}
 		time.Sleep(time.Minute) // until the runner terminates it
 		os.Exit(0)
 	case "client":
+		answered := 0
 		for {
 			var req conformancev1.ClientCompatRequest
 			if err := internal.ReadDelimitedMessage(os.Stdin, &req, "runner", time.Minute, 1<<20); err != nil {
@@ -596,6 +651,10 @@ func TestVerifC04Child(t *testing.T) {
 				if err := internal.WriteDelimitedMessage(os.Stdout, resp); err != nil {
 					os.Exit(3)
 				}
+			}
+			answered++
+			if answered == exitAfter {
+				os.Exit(exitCode)
 			}
 		}
 	}
